@@ -1,0 +1,45 @@
+//go:build verif
+
+package storage
+
+import (
+	"os"
+	"strconv"
+	"strings"
+	"sync"
+)
+
+// Crash points for the out-of-tree verification harness (build tag verif).  A normal build
+// compiles verif_off.go instead, where verifPoint is a no-op.
+//
+// VERIF_CRASH=<name> kills the process (exit code 99, no deferred calls, no Close) the first time
+// the point <name> is reached; VERIF_CRASH=<name>#<n> the n-th time.
+
+var (
+	verifMu   sync.Mutex
+	verifHits = map[string]int{}
+)
+
+func verifPoint(name string) {
+	want := os.Getenv("VERIF_CRASH")
+	if want == "" {
+		return
+	}
+	nth := 1
+	if i := strings.IndexByte(want, '#'); i >= 0 {
+		if n, err := strconv.Atoi(want[i+1:]); err == nil {
+			nth = n
+		}
+		want = want[:i]
+	}
+	if want != name {
+		return
+	}
+	verifMu.Lock()
+	verifHits[name]++
+	hit := verifHits[name]
+	verifMu.Unlock()
+	if hit == nth {
+		os.Exit(99)
+	}
+}
